@@ -5,6 +5,8 @@
           <npf> { <name> array }  <ncf> { <name> <type> array }
           array := <dtype> <rows> <ntail> d… <n> bits…
       → hyp=<0|1> file=<elements|none> back=<digest|none> spec=<digest|none>
+        (hyp = `Spec.hyp && Spec.sizeOk`; back = digest of `readVtu (writeVtu F)`, spec = digest of `normalise F`;
+         `C13_vtu_roundtrip` proves back = spec ≠ none whenever hyp=1 — the harness still compares them)
   c13csv  <ncols> names(hex)…  <nrows> tokens(hex, row-major)…
       → hyp=<0|1> text=<hex> back=<ncols>:<hex,…>/<row>/…|none
   c13b64  <hex bytes>      → enc=<text> dec=<hex|none>        (encoder / decoder against the stdlib)
@@ -89,7 +91,7 @@ def showR (r : RFields) : String :=
 
 def opC13Vtu : P String := do
   let F ← pWFields
-  let hyp := Spec.hyp F
+  let hyp := Spec.hyp F && Spec.sizeOk F      -- the two hypotheses of `C13_vtu_roundtrip`
   let file := writeVtu id F
   let back := file.bind readVtu
   let spec := Spec.normalise F
